@@ -25,7 +25,7 @@ import time
 import numpy as np
 from hypothesis import strategies as st
 
-from verifpy import (Unit, Result, Reject, run_hypothesis, replay_main, replay_requested, SEED, TIER, JOBS, param,
+from verifpy import (Unit, Result, Reject, run_hypothesis, replay_main, replay_requested, SEED, TIER, JOBS, REPO, param,
                      parallel_map)
 import gb_iface as gb
 import behaviour_templates as bt
@@ -434,7 +434,26 @@ CHECK = {"hooke_default": check_elastic, "hooke_brick": check_elastic, "implicit
          "iso_plasticity": check_iso_plasticity}
 
 
-def check_case(case):
+def check_repo(prog, call, lib):
+    """repository behaviours, unchanged: same discretised equations as the corresponding template"""
+    q = dict(prog)
+    if prog["family"] == "creep" and prog.get("implicit"):
+        q.update({"brick": False, "algo": prog["name"]})
+        r = check_implicit_norton(q, call, lib)
+    elif prog["family"] == "creep":
+        r = check_iso_creep(q, call, lib)
+    else:
+        r = check_iso_plasticity(q, call, lib)
+    r.classes = list(r.classes or []) + ["repo." + prog["name"]]
+    if not r.ok:
+        r.key = r.key.replace("C41.", "C41.repo.", 1)
+    return r
+
+
+CHECK["repo"] = check_repo
+
+
+def check_case_(case):
     prog, call = case["prog"], case["call"]
     lib, err = bt.build(gb, prog)
     if lib is None:
@@ -442,6 +461,17 @@ def check_case(case):
     if call is None:
         raise Reject()
     return CHECK[prog["kind"]](prog, call, lib)
+
+
+def check_case(case):
+    """a bug of the harness must be loud, not a silently discarded case"""
+    try:
+        return check_case_(case)
+    except Reject:
+        raise
+    except Exception as e:  # noqa
+        import traceback
+        return Result(False, "C41.harness.exception", traceback.format_exc()[-1500:])
 
 
 def smax_of(prog):
@@ -452,11 +482,14 @@ def smax_of(prog):
 
 # quick tier composition: (kind, number of programs, share of the case budget)
 PLAN = [("hooke_default", 2, 0.10), ("hooke_brick", 2, 0.10), ("implicit_norton", 3, 0.25), ("rk_norton", 3, 0.12),
-        ("iso_creep", 1, 0.10), ("implicit_plasticity", 2, 0.20), ("iso_plasticity", 1, 0.13)]
+        ("iso_creep", 1, 0.10), ("implicit_plasticity", 2, 0.20), ("iso_plasticity", 1, 0.13),
+        # one of ImplicitNorton.mfront / Norton.mfront / Plasticity.mfront, unchanged but for @ModellingHypotheses
+        ("repo", 1, 0.07)]
+REPO_C41 = ["ImplicitNorton", "Norton", "Plasticity"]
 
 
 def main():
-    replay_main({k: check_case for k in bt.KINDS})
+    replay_main({k: check_case for k in list(bt.KINDS) + ["repo"]})
     u = Unit("C41_integration")
     cases = param("cases", 3000)
     nprog = param("programs", 14)
@@ -466,6 +499,12 @@ def main():
     for kind, k, share in PLAN:
         k = max(1, int(round(k * scale)))
         for i in range(k):
+            if kind == "repo":
+                entry = [e for e in bt.REPO_BEHAVIOURS if e["name"] == REPO_C41[(SEED + i) % len(REPO_C41)]][0]
+                hyps = entry["hyps"]
+                sel = sorted({hyps[(SEED + i) % len(hyps)]} | set(entry.get("needs", [])), key=hyps.index)
+                progs.append((bt.repo_program(REPO, entry, sel), max(5, int(cases * share / k))))
+                continue
             # the index rotates algorithms / hypotheses; the seed shifts the rotation
             p = bt.make_program(bt.random_description(rng, kind, SEED * 3 + i))
             p["name"] = "%ss%d" % (p["name"], SEED % 100000)
